@@ -22,9 +22,9 @@ impl Pcm {
     }
 }
 
-pub const FAMILIES: [&str; 17] = [
+pub const FAMILIES: [&str; 18] = [
     "silence", "dc", "fullscale", "alt_fullscale", "impulses", "sine_noise", "white", "heavy_tail",
-    "anti_stereo", "same_stereo", "loud_silent_mix", "ramp", "near_constant", "sine_small", "tone_hf", "ar1", "dense_impulses",
+    "anti_stereo", "same_stereo", "loud_silent_mix", "ramp", "near_constant", "sine_small", "tone_hf", "ar1", "dense_impulses", "bursty_noise",
 ];
 
 fn clampv(v: f64, bps: usize) -> i32 {
@@ -64,6 +64,23 @@ pub fn channel(rng: &mut Rng, family: &str, bps: usize, len: usize) -> Vec<i32> 
             (0..len)
                 .map(|t| clampv(amp * (t as f64 * 6.283185307 / period).sin() * 0.9 + noise * rng.gauss(), bps))
                 .collect()
+        }
+        "bursty_noise" => {
+            // loud noise whose level changes every 64 samples (most segments at full scale, the rest at a
+            // quarter): nearly incompressible, and the best Rice partition order is the finest one - a
+            // candidate within ~1% of the verbatim size whose size accounting involves warm-up samples
+            // and many partitions at once
+            let loud_pct = *rng.pick(&[60u64, 72, 75, 78, 90]);
+            let hi = (1i64 << (bps - 1)) - 1;
+            let mut v = Vec::with_capacity(len);
+            let mut amp = hi;
+            for t in 0..len {
+                if t % 64 == 0 {
+                    amp = if rng.chance(loud_pct) { hi } else { hi / 4 };
+                }
+                v.push(rng.range(-amp, amp) as i32);
+            }
+            v
         }
         "dense_impulses" => {
             // every k-th sample loud, zeros elsewhere: low entropy estimate, enormous Rice cost at small
